@@ -27,7 +27,12 @@ for d in sorted(os.listdir(os.path.join(V, 'seeded'))):
             det.append('%s (%s, %ss)' % (prop, tier, r['seconds']))
             first = first or (r.get('first_violation') or [''])[0][:140].replace('|', '\\|')
     status = ', '.join(det) if det else ('**not detected** - ' + m.get('not_detected_reason', 'see DESIGN.md section 16.1'))
+    if m.get('superseded'):
+        status = '*superseded by a repair of /repo* - ' + m['superseded']
+    for k in ('rebased', 'demo_adjusted'):
+        if m.get(k):
+            status += ' [' + m[k][:160] + ']'
     what = ((m.get('summary') or '')[:260] + ' NEEDS: ' + (m.get('needs_to_manifest') or '')[:200]).replace('|', '\\|').replace('\n', ' ')
     lines.append('| %s | %s | %s | %s | %s |' % (d, m.get('property'), what, status, first))
 open(os.path.join(V, 'seeded', 'RESULTS.md'), 'w').write('\n'.join(lines) + '\n')
-print('\n'.join(lines[-40:])[:3000])
+print('written', len(lines) - 9, 'rows')
